@@ -18,8 +18,8 @@ import (
 //	* branch length: follow an exponential distribution with param lambda=1/0.1
 func RandomUniformBinaryTree(nbtips int, rooted bool) (*Tree, error) {
 	t := NewTree()
-	if nbtips < 2 {
-		return nil, errors.New("Cannot create an unrooted random binary tree with less than 2 tips")
+	if nbtips < 3 && !rooted {
+		return nil, errors.New("Cannot create an unrooted random binary tree with less than 3 tips")
 	}
 	if nbtips < 3 && rooted {
 		return nil, errors.New("Cannot create a rooted random binary tree with less than 3 tips")
@@ -81,6 +81,9 @@ func RandomBalancedBinaryTree(depth int, rooted bool) (*Tree, error) {
 	if depth < 1 {
 		return nil, errors.New("Cannot create an random binary tree of depth < 1")
 	}
+	if depth < 2 && !rooted {
+		return nil, errors.New("Cannot create an unrooted random binary tree of depth < 2")
+	}
 
 	curdepth := 0
 	root := t.NewNode()
@@ -123,8 +126,8 @@ func randomBalancedBinaryTreeRecur(t *Tree, node *Node, curdepth int, targetdept
 //	* branch lengths: follow an exponential distribution with param lambda=1/0.1
 func RandomYuleBinaryTree(nbtips int, rooted bool) (*Tree, error) {
 	t := NewTree()
-	if nbtips < 2 {
-		return nil, errors.New("Cannot create an unrooted random binary tree with less than 2 tips")
+	if nbtips < 3 && !rooted {
+		return nil, errors.New("Cannot create an unrooted random binary tree with less than 3 tips")
 	}
 	if nbtips < 3 && rooted {
 		return nil, errors.New("Cannot create a rooted random binary tree with less than 3 tips")
@@ -187,8 +190,8 @@ func RandomYuleBinaryTree(nbtips int, rooted bool) (*Tree, error) {
 //	* branch length: follows an exponential distribution with param lambda=1/0.1
 func RandomCaterpillarBinaryTree(nbtips int, rooted bool) (*Tree, error) {
 	t := NewTree()
-	if nbtips < 2 {
-		return nil, errors.New("Cannot create an unrooted random binary tree with less than 2 tips")
+	if nbtips < 3 && !rooted {
+		return nil, errors.New("Cannot create an unrooted random binary tree with less than 3 tips")
 	}
 	if nbtips < 3 && rooted {
 		return nil, errors.New("Cannot create a rooted random binary tree with less than 3 tips")
